@@ -288,7 +288,15 @@ def tasks(tier, seed):
     n = 3000 if tier == "quick" else 50000
     for k in range(10):
         ts.append({"name": "random-%d" % k, "fn": "t_random", "kw": {"seed": mix(seed, ID, k), "n": n}})
+    if tier == "thorough":
+        ts.append({"name": "atheris", "fn": "t_atheris", "kw": {"seed": seed, "seconds": 240}})
     return ts
+
+
+def t_atheris(seed, seconds):
+    """coverage-guided campaign (thorough tier): the same oracle inside an atheris target; findings come back as failures"""
+    from ..fuzz import driver
+    return driver.run_campaigns(seed, seconds, plans=[("c10-text", "empty"), ("c10-text", "tests")], death_hook=False)
 
 
 def replay(case):
